@@ -947,6 +947,9 @@ func (e *streamExec) readOnce(chunks []int, eofData bool, f ReadFault) {
 				o.Violate("C08", "stream-unseal-cid", "FromSealedReader CID is not the hash of the bytes read", nil)
 			}
 		}
+		if f.Kind == "" {
+			e.interleaved(chunks, eofData, attrs)
+		}
 		return
 	}
 	// a fault fired
@@ -1013,6 +1016,63 @@ func (e *streamExec) readOnce(chunks []int, eofData bool, f ReadFault) {
 		}
 	}
 	o.Violate("C18", "read-fault-swallowed", fmt.Sprintf("%s %s returned success although the reader failed with %s at offset %d of %d", e.p.Art, e.p.API, f.Kind, f.At, len(e.ref)), attrs)
+}
+
+// interleaved: the same fault-free stream read, during which (the source having delivered a
+// part and being asked for more) the same artefact is read a second time from start to end, as a
+// second connection served meanwhile would be. Both reads give the buffered result.
+func (e *streamExec) interleaved(chunks []int, eofData bool, attrs map[string]string) {
+	o := e.o
+	if len(chunks) == 0 {
+		chunks = []int{40}
+	}
+	read := func(r io.Reader) ([]string, error) {
+		if e.isContainer() {
+			rd, err := e.readContainer(r, nil)
+			if err != nil || rd == nil {
+				return nil, err
+			}
+			return readerRecs(rd), nil
+		}
+		tk, c, err := e.decodeToken(r, nil)
+		if err != nil || isNilTok(tk) {
+			return nil, err
+		}
+		return []string{cidHex(c.Bytes()) + "=" + recOf(tk).Content()}, nil
+	}
+	for _, at := range []int{2, 3} {
+		var inner, outer []string
+		var ierr, oerr error
+		nested := false
+		src := &hookReader{inner: newSimReader(e.ref, chunks, eofData, ReadFault{}), at: at}
+		src.hook = func() {
+			nested = true
+			inner, ierr = read(newSimReader(e.ref, []int{64}, false, ReadFault{}))
+		}
+		if guard(o, "read:"+e.p.Art+":"+e.p.API+" (two reads interleaved)", func() { outer, oerr = read(src) }) {
+			return
+		}
+		if !nested {
+			continue
+		}
+		o.Eval("C18")
+		o.Fault("overlapping_reads")
+		o.Sig("C18", e.p.Art, e.p.API, e.p.Typed, "read", "interleaved", at, oerr == nil, ierr == nil)
+		for _, x := range []struct {
+			who  string
+			recs []string
+			err  error
+		}{{"the read that was in progress", outer, oerr}, {"the read made meanwhile", inner, ierr}} {
+			if x.err != nil {
+				o.Violate("C18", "stream-read-failed", fmt.Sprintf("%s %s: of two fault-free stream reads overlapping in time, %s failed: %v", e.p.Art, e.p.API, x.who, x.err), attrs)
+				return
+			}
+			if strings.Join(x.recs, ";") != strings.Join(e.refRec, ";") {
+				o.Violate("C18", "stream-read-differs", fmt.Sprintf("%s %s: of two fault-free stream reads overlapping in time, %s differs from the buffered decode (%d entries, %d expected)", e.p.Art, e.p.API, x.who, len(x.recs), len(e.refRec)), attrs)
+				return
+			}
+		}
+	}
 }
 
 func (e *streamExec) writeOnce(f WriteFault) {
